@@ -331,7 +331,9 @@ func (g *G) genFaithful(id string) *History {
 	for _, p := range [][2]string{{"Set-Cookie", "a=1"}, {"Set-Cookie", "b=2; Path=/"}, {"x-lower-case", "v"}, {"X-Empty", ""},
 		{"X-Spaces", "  padded  "}, {"X-Long", strings.Repeat("v", 3000)}, {"X-Latin", "caf\xe9"}, {"Content-Type", "text/plain; charset=utf-8"},
 		{"Close", "17:30"}, {"Keep-Alive", "timeout=5"}, {"Upgrade", "h2c"}, {"Proxy-Authenticate", "Basic"}, {"Te", "trailers"}, {"TE", "gzip"},
-		{"Connection", "X-Hop, keep-alive"}, {"X-Hop", "hop"}, {"Connection", "X-Hop2"}, {"X-Hop2", "hop2"}, {"Proxy-Connection", "keep-alive"}, {"Etag", `"f1"`},
+		{"Connection", "X-Hop, keep-alive"}, {"X-Hop", "hop"}, {"Connection", "X-Hop2"}, {"X-Hop2", "hop2"}, {"Proxy-Connection", "keep-alive"},
+		// connection options are tokens: a stray quote in one member hides nothing after it
+		{"Connection", `x", X-Hop3`}, {"X-Hop3", "hop3"}, {"Etag", `"f1"`},
 		{"Age", "7"}, {"X-From-Cache", "1"}, {"X-Httpcache-Status", "HIT"}, {"Warning", `110 - "stale"`}, {"Vary", "X-A"}} {
 		if g.chance(0.3) {
 			hd = append(hd, p)
